@@ -484,14 +484,41 @@ class ScanForAnchors:
     raises = []
 
 
+for _op in ("addition", "subtraction", "intersection"):
+    def _mkc(n):
+        @contract(PR + "_collector_" + n, props=["C15"])
+        class _C:
+            __doc__ = "ASSUMED: the set operation of two gathered result lists (list surgery over NodeCoords: bounded only)."
+            assumed = True
+            notes = "collector %s: bounded-only (rtc/c01, rtc/c09, rtc/c15)" % n
+            raises = ["YAMLPathException"]
+            opts = {"returns": "list", "event": "('collector-op', '%s')" % n}
+        _C.__name__ = "Collector_" + n
+        return _C
+    _mkc(_op)
+
+
 @contract(PR + "_get_nodes_by_collector", props=["C15"])
 class ByCollector:
-    """ASSUMED for the modular proof of its callers; its own body (nested generators, list surgery, a while
-    loop over peer collectors) is outside pyvc's subset and is checked by the bounded harness rtc/c15."""
-    assumed = True
-    notes = "collector evaluation is bounded-only (DESIGN §6 C15 'Reach')"
+    """The COLLECTOR handler itself: gathers the sub-path's required matches, flattens a lone list result, folds in every
+    directly following peer collector with its operator (the three set operations are assumed), and yields the gathered
+    list once -- or nothing when it is empty.  Only the YAMLPathException family escapes."""
+    params = dict(KWP, yaml_path="YAMLPath", segment_index="int", terms="CollectorTerms")
+    assume_fields = dict(PATH_FIELDS, **{"terms._operation": "CollectorOperators", "terms._expression": "str"})
+    requires = PARSED
+    inline = [YP + "escaped", YP + "unescaped"]
     raises = ["YAMLPathException"]
-    opts = dict(SEG_INV, yields="list")
+    loops = {
+        "while next_segment_idx < len(segments)": {
+            "invariant": ["segment_index < next_segment_idx"],
+            "decreases": "len(segments) - next_segment_idx"},
+    }
+    ensures = ["len(out) <= 1"]
+    opts = dict(SEG_INV, yields=NC,
+                heap_fields=dict(SEG_INV["heap_fields"], **{"CollectorTerms._expression": "str", "CollectorTerms.expression": "str", "CollectorTerms._operation": "CollectorOperators", "CollectorTerms.operation": "CollectorOperators"}),
+                # the parser attaches an operator only to a collector that directly follows another collector, and the drivers
+                # hand that segment the list its predecessor gathered (rtc/c15 raw-text stage: every accepted string)
+                assumed_pre=["implies(terms._operation is not CollectorOperators.NONE, isinstance(data, list))"])
 
 
 KS = "yamlpath.common.keywordsearches.KeywordSearches."
